@@ -560,7 +560,7 @@ func (c *collector) Call(s *slip.Scope, args slip.List, depth int) slip.Object {
 	return nil
 }
 
-var fronts = []string{"ReadStream", "ReadStreamOne", "ReadStreamEach", "ReadStreamPush", "cl:read-seek", "cl:read-all-seek", "cl:read-all-nonseek", "cl:peek+read-nonseek-safe", "swank:wire", "gi:read-each", "gi:read-push", "cl:read-from-string"}
+var fronts = []string{"ReadStream", "ReadStreamOne", "ReadStreamEach", "ReadStreamPush", "cl:read-seek", "cl:read-all-seek", "cl:read-all-nonseek", "cl:peek+read-nonseek-safe", "swank:wire", "gi:read-each", "gi:read-push", "cl:load-stream", "cl:read-from-string"}
 
 func scopeFor(c *Case) *slip.Scope {
 	s := slip.NewScope()
@@ -585,6 +585,13 @@ func reference(c *Case, front string) outcome {
 		})
 	}
 	switch front {
+	case "cl:load-stream":
+		return capture(func() ([]slip.Object, int) {
+			s.Let("sim-loaded", nil)
+			slip.ReadString(string(loadWrap(c.Text)), s).Eval(s, nil)
+			lst, _ := s.Get("sim-loaded").(slip.List)
+			return lst, 0
+		})
 	case "swank:wire":
 		// the framed payload denotes its first object (nil if there is none)
 		return capture(func() ([]slip.Object, int) {
@@ -623,6 +630,12 @@ func canary(c *Case, n int) outcome {
 		}
 		return slip.ReadString(canaryText, s), 0
 	})
+}
+
+// loadWrap turns a text into a loadable file: one form that stores the
+// objects of the text in sim-loaded.
+func loadWrap(text []byte) []byte {
+	return append(append([]byte("(setq sim-loaded (quote ("), text...), "\n)))\n"...)
 }
 
 func runFront(c *Case, front string, p Plan) (outcome, *source) {
@@ -710,6 +723,15 @@ func runFront(c *Case, front string, p Plan) (outcome, *source) {
 			s.Let("sim-stream", so)
 			v := slip.ReadString("(read sim-stream)", slip.NewScope()).Eval(s, nil)
 			return []slip.Object{v}, src.off
+		case "cl:load-stream":
+			// (load stream): the text is wrapped into one form that stores
+			// its objects, unevaluated, in a variable
+			src.data = loadWrap(c.Text)
+			s.Let("sim-stream", &streamObj{Reader: rd})
+			s.Let("sim-loaded", nil)
+			slip.ReadString("(load sim-stream)", slip.NewScope()).Eval(s, nil)
+			lst, _ := s.Get("sim-loaded").(slip.List)
+			return lst, 0
 		case "gi:read-each", "gi:read-push":
 			s.Let("sim-stream", &streamObj{Reader: rd})
 			src := `(let ((acc nil)) (read-each sim-stream (lambda (x) (setq acc (cons x acc)))) (reverse acc))`
@@ -946,6 +968,9 @@ func (e *engine) Execute(raw json.RawMessage) (vd harness.Verdict) {
 		ref := refs[front]
 		if ref.kind == "go-panic" {
 			return nil
+		}
+		if front == "cl:load-stream" && c.ReadBase != 10 {
+			return nil // the wrapper's own symbols would be read as numbers
 		}
 		if front == "cl:peek+read-nonseek-safe" {
 			// The part of the non-seekable cl:read path that works on the
